@@ -158,11 +158,15 @@ PROPS["C15"] = {
     ],
     "rule": "cases are (from,to) address pairs fed to goom's own jump emitters: every 16-bit lane of `to` swept through all 65536 "
             "values with the other lanes drawn by rapid, to-from swept over +-2^31+-80 exhaustively for drawn bases, plus rapid-drawn "
-            "random pairs; the emitted bytes are decoded by the toolchain's x86asm/arm64asm (reference) and interpreted symbolically. "
+            "random pairs; the emitted bytes are decoded by the toolchain's x86asm/arm64asm (reference) and interpreted symbolically; in pair mode a second "
+            "sequence is emitted before the first is judged again (a sequence handed out stays what it was). amd64-patch/guards: rapid histories of "
+            "patch / apply / unpatch / restore over 5 targets x 6 replacements through internal/patch guards; after every step the entry of each diverted "
+            "target must load into RDX the address of the func value of its own replacement (and calling it runs that replacement), every other entry is pristine. "
             "A case is non-trivial when `to` has at least two non-zero 16-bit lanes or the pair lies within 128 bytes of the +-2GiB "
             "decision boundary; distinct by (emitter, from, to).",
     "assumptions": ["the reference decoders (cmd/vendor/golang.org/x/arch of the installed toolchain) decode MOV imm64 / JMP [reg] / JMP rel32 / MOVZ / MOVK / LDR / BR correctly",
                     "arm64 and 386 emitters are compiled on amd64 from the working tree's source files (they depend on unsafe only)"],
+    "floors": [("amd64-patch/guards", "guards/restore-after-unpatch", 200), ("amd64-patch/guards", "guards/apply-after-another-patch-was-prepared", 500)],
 }
 
 PROPS["C20"] = {
@@ -193,19 +197,23 @@ PROPS["C16"] = {
          "shards": {"quick": 1, "thorough": 8}},
         {"name": "exact", "pkg": "./zverif/c16", "run": "^TestVerifC16Exact$", "timeout": {"quick": 400, "thorough": 2400},
          "shards": {"quick": 1, "thorough": 2}},
+        {"name": "windows", "pkg": "./zverif/c16", "run": "^TestVerifC16Windows$", "timeout": {"quick": 400, "thorough": 2400},
+         "shards": {"quick": 1, "thorough": 4}},
         {"name": "totality-fuzz", "pkg": "./zverif/c16", "run": "^$", "tiers": ("thorough",), "timeout": {"thorough": 900},
          "fuzz": {"target": "^FuzzVerifC16$", "seconds": {"thorough": 240}, "property": "C16"}, "post": fuzz_post},
     ],
     "rule": "totality: byte strings of length 0..16 from rapid (raw bytes; a structured prefix/REX/opcode-map/ModRM generator; real instructions of the "
             "test binary with mutated bytes, truncations and random tails) checked against the totality invariants (no panic incl. String(), "
-            "1<=Len<=min(15,len), PC-relative field inside the instruction). exact: every function "
+            "1<=Len<=min(15,len), PC-relative field inside the instruction). windows: every prefix of a (real, zero-tailed, mutated or "
+            "structured) byte string is decoded before and again after the whole string: totality for the bytes actually supplied and the same answer "
+            "both times (the decoder's answer is a function of its input alone). exact: every function "
             "(pclntab extents) of the test binary and of toolchain binaries walked in lock step with the reference decoder; Len, Op, PCRel, PCRelOff "
             "and goom's own displacement reader (bytecode.DecodeRelativeAddr) must agree, also after the displacement bytes of every 5th PC-relative "
             "instruction are overwritten with 18 boundary values. Non-trivial: a successfully decoded string / instruction; distinct by "
             "(first opcode bytes, Op, PCRel width, length).",
     "assumptions": ["the reference decoder is the toolchain's newer copy of the same upstream package (shared ancestry: a bug common to both is invisible)",
                     "positions the reference cannot decode (AVX2/VEX bodies of hand-written assembly, data in text) end the walk of that function and are counted, not judged"],
-    "floors": [("totality", "decodable-pcrel", 1000), ("exact", "displacement-mutants", 10000)],
+    "floors": [("totality", "decodable-pcrel", 1000), ("exact", "displacement-mutants", 10000), ("windows", "window/long-zero-tail", 500)],
 }
 
 PROPS["C17"] = {
@@ -344,6 +352,8 @@ PROPS["C06"] = {
             "Pkg.ExportStruct.Method(.As). Oracle: model of which (type, method) is mocked; the callback's first argument is the very instance (pointer "
             "identity / bit-exact copy), every other method of every type runs its original body exactly once per call. generics: Return-stubs on "
             "methods/functions of G[T] for T in int,int64,string,*GA,*GB,GS; instantiations of a different GC shape and other methods must be unaffected. "
+            "concurrent-methods: 2..4 different methods of one type are mocked at the same moment by goroutines with their own builders (4 rounds); "
+            "each named method must then run exactly its own callback. "
             "Non-trivial: a history with a call on a mocked method or a call-all sweep while something is mocked; distinct by the op/tag sequence.",
     "assumptions": ["Struct(x) is given the receiver kind the method declares (README)", "callbacks on generic methods/functions are an open known finding: only Return-stubs are judged there"],
     "floors": [("methods", "call/mocked/value-receiver", 50), ("methods", "call/mocked/unexported-method", 50), ("methods", "call/mocked/unexported-type", 30),
